@@ -129,6 +129,75 @@ fn c18_length_counts_chars() {
 }
 }
 
+// @harness id=c18_join_str_item props=C18 tier=quick cap=1500
+// @desc one step of std.join with a string separator (do_std_join_str_item) from any reachable pre-state - accumulator "" or "a", the first-item flag set or not (set implies an empty accumulator, but an empty accumulator does not imply the flag: a leading "" item clears it), item null / "" / "b": null items are skipped; otherwise the separator is inserted exactly when an item has been appended before (flag clear), also after leading empty strings, so that std.join(c, std.split(s, c)) == s for s starting with c
+// @bound accumulator in {"", "a"}, item in {null, "", "b"}, separator ","
+// @funcs Evaluator::do_std_join_str_item
+eval_stubs! {
+#[kani::proof]
+#[kani::unwind(8)]
+#[kani::stub(alloc::string::String::reserve, crate::kani_support::stub_string_reserve)]
+#[kani::stub(alloc::string::String::push_str, crate::kani_support::stub_string_push_str)]
+fn c18_join_str_item() {
+    let arena = Arena::new();
+    let mut program = bare_program(&arena);
+    let mut ev = bare_evaluator(&mut program);
+    let acc_has_a: bool = kani::any();
+    let first: bool = kani::any();
+    kani::assume(!(first && acc_has_a)); // nothing can have been appended while the flag is still set
+    let mut acc = String::with_capacity(8);
+    if acc_has_a {
+        acc.push('a');
+    }
+    ev.string_stack.push(acc);
+    ev.bool_stack.push(first);
+    let item_kind: u8 = kani::any();
+    kani::assume(item_kind < 3);
+    let item = match item_kind {
+        0 => ValueData::Null,
+        1 => ValueData::String("".into()),
+        _ => ValueData::String("b".into()),
+    };
+    ev.value_stack.push(item);
+    let sep: Rc<str> = ",".into();
+    let res = ev.do_std_join_str_item(sep.clone());
+    assert!(res.is_ok(), "null and string items are accepted");
+    // expected accumulator
+    let mut want = [0u8; 4];
+    let mut n = 0;
+    if acc_has_a {
+        want[n] = b'a';
+        n += 1;
+    }
+    if item_kind != 0 {
+        if !first {
+            want[n] = b',';
+            n += 1;
+        }
+        if item_kind == 2 {
+            want[n] = b'b';
+            n += 1;
+        }
+    }
+    let got = ev.string_stack[0].as_bytes();
+    assert!(got.len() == n, "separator inserted exactly when an item was appended before");
+    let mut k = 0;
+    while k < 4 {
+        if k < n {
+            assert!(got[k] == want[k], "accumulator = previous text, separator if not first, item");
+        }
+        k += 1;
+    }
+    assert!(ev.bool_stack.len() == 1 && ev.bool_stack[0] == (first && item_kind == 0), "the first-item flag is cleared by the first non-null item");
+    kani::cover!(!first && !acc_has_a && item_kind == 2, "item after leading empty strings gets its separator");
+    kani::cover!(first && item_kind == 1, "leading empty string clears the flag");
+    core::mem::forget(res);
+    core::mem::forget(ev);
+    core::mem::forget(program);
+    core::mem::forget(sep);
+}
+}
+
 // @harness id=c18_must_fail props=C18 tier=quick cap=1500 expect=fail
 // @desc vacuity twin of the string harnesses
 eval_stubs! {
